@@ -585,7 +585,8 @@ def _formula_to_format(
             token = "-" if chg == -1 else "%d-" % -chg
         if chg > 0:
             token = "+" if chg == 1 else "%d+" % chg
-        string += sup(token)
+        if chg != 0:  # a written zero charge ("Fe+0") gets no superscript
+            string += sup(token)
     if len(parts) > 4:
         raise ValueError("Incorrect formula")
     pre_str = "".join(prefixes[x] for x in parts[2])
